@@ -38,6 +38,40 @@ theorem reuse_only_if_unchanged (H : Bytes → K) (ops : List Op) (path : Bytes)
 example : (checkFile (run (K := Bytes) id [Op.didUpload [1] [2] 5 6 7 100, Op.didUpload [3] [2] 5 6 8 150])
     [2] ⟨8, 5, 6⟩ true 200 0).2.wasUploaded = some [3] := by decide
 
+omit [DecidableEq K] in
+/-- `FileResult.did_upload` records the stat that `check_file` sampled (whatever branch produced the result). -/
+theorem did_upload_records_sampled_stat (db db' : Db K) (path : Bytes) (st : Stat) (useTs : Bool)
+    (now : Int) (rnd : Nat) (cap : Bytes) (now' : Int) :
+    (checkFile db path st useTs now rnd).2.didUpload db' cap now'
+      = didUploadFile db' cap path st.mtime st.ctime st.size now' := by
+  unfold checkFile FileResult.didUpload
+  (repeat' split) <;> rfl
+
+/-- The reuse decision is about the stat sampled at check time: if the result of `check_file(path)` (stat `st`)
+    receives `did_upload(cap)` after any further history, then a later `check_file(path)` reports a cap only if
+    the stat it sees equals `st` — a file written between `check_file` and `did_upload` is not reused. -/
+theorem reuse_only_if_sampled_stat_unchanged (H : Bytes → K) (ops0 ops : List Op) (path : Bytes) (st : Stat)
+    (useTs : Bool) (now : Int) (rnd : Nat) (cap : Bytes) (now' : Int)
+    (st' : Stat) (useTs' : Bool) (now'' : Int) (rnd' : Nat) (c : Bytes)
+    (h : (checkFile ((checkFile (run H ops0) path st useTs now rnd).2.didUpload (run H ops) cap now')
+            path st' useTs' now'' rnd').2.wasUploaded = some c) :
+    useTs' = true ∧ st' = st ∧ c = cap := by
+  rw [did_upload_records_sampled_stat] at h
+  have hrun : didUploadFile (run H ops) cap path st.mtime st.ctime st.size now'
+      = run H (ops ++ [Op.didUpload cap path st.mtime st.ctime st.size now']) := by
+    simp [run, step]
+  rw [hrun] at h
+  obtain ⟨h1, h2⟩ := reuse_only_if_unchanged H _ path st' useTs' now'' rnd' c h
+  simp [lastUploadOf] at h2
+  obtain ⟨a, b, c', d⟩ := h2
+  refine ⟨h1, ?_, d.symm⟩
+  cases st; cases st'; simp_all
+
+example : (checkFile ((checkFile (run (K := Bytes) id []) [2] ⟨7, 5, 6⟩ true 100 0).2.didUpload
+      (run (K := Bytes) id []) [1] 150) [2] ⟨7, 5, 6⟩ true 200 0).2.wasUploaded = some [1]
+    ∧ (checkFile ((checkFile (run (K := Bytes) id []) [2] ⟨7, 5, 6⟩ true 100 0).2.didUpload
+      (run (K := Bytes) id []) [1] 150) [2] ⟨9, 8, 6⟩ true 200 0).2.wasUploaded = none := by decide
+
 /-- The string hashed by `check_directory` determines the directory contents: two contents with the same
     encoding have exactly the same (name, cap) entries (netstring framing is uniquely decodable; sorting
     only permutes). -/
